@@ -11,7 +11,7 @@ import (
 )
 
 // C11: Op 0 = QuantileCI(N, Q, c) for every c in Cs with N <= 30 (one line per (N,Q));
-// Op 1 = QuantileCI(N, Q, Cs[0]) with N > 30 plus the NormalDist oracle values;
+// Op 1 = QuantileCI(N, Q, Cs[0]) with N > 30 plus the NormalDist oracle values (Mu, Sigma, InvCDF(alpha), CDF at the band ends);
 // Op 2 = QuantileCIResult{Quantile:Q, N:RN, LoOrder:Lo, HiOrder:Hi}.SampleCI(Sample{Xs, Sorted, Weights}).
 type c11Case struct {
 	Op       int   `json:"op"`
@@ -89,7 +89,7 @@ func c11Run(raw []byte) (*Line, error) {
 		res := stats.QuantileCI(c.N, q, cf)
 		l.I(11).I(1).I(c.N).F(q).F(cf)
 		if cf >= 1 {
-			l.F(0).F(0).F(0).I(0).I(0).F(0).F(0).F(0).F(0).F(0).F(0)
+			l.F(0).F(0).F(0).F(0).I(0).I(0).F(0).F(0).F(0).F(0).F(0).F(0)
 		} else {
 			// the oracle: the implementation's own normal quantile and CDF at the points the band logic uses
 			norm := stats.BinomialDist{N: c.N, P: q}.NormalApprox()
@@ -106,7 +106,7 @@ func c11Run(raw []byte) (*Line, error) {
 				la = r0 - 1
 			}
 			ch, cl, ch1 := norm.CDF(float64(r0)-0.5), norm.CDF(float64(la)-0.5), norm.CDF(float64(r0-1)-0.5)
-			l.F(norm.Mu).F(l1).F(r1).I(l0).I(r0).F(ch - cl).F(ch1 - cl).F(norm.CDF(l1)).F(ch).F(cl).F(ch1)
+			l.F(norm.Mu).F(norm.Sigma).F(l1).F(r1).I(l0).I(r0).F(ch - cl).F(ch1 - cl).F(norm.CDF(l1)).F(ch).F(cl).F(ch1)
 		}
 		c11Obs(l, res)
 	case 2:
@@ -292,6 +292,21 @@ func c11Gen(tier string, rng *rand.Rand, emit func(interface{})) {
 		q := 0.05 + 0.9*rng.Float64()
 		cf := 1 - float64(1+rng.Intn(6))*math.Ldexp(1, -53)
 		emit(c11Case{Op: 1, N: n, Q: F64(q), Cs: []F64{F64(cf)}})
+	}
+	// (b6) n > 30 with n q (1-q) the square of a small dyadic rational (Sigma exact and short): the cases
+	// whose Phi-values the M2 stage (bin/plugins/C11.py) certifies in the kernel against the true normal CDF
+	nice := []struct {
+		n int
+		q float64
+	}{{36, 0.5}, {64, 0.5}, {100, 0.5}, {144, 0.5}, {400, 0.5}, {1024, 0.5}, {48, 0.25}, {48, 0.75}, {192, 0.25}, {300, 0.25}, {300, 0.75}, {1200, 0.25}, {448, 0.125}, {448, 0.875}, {1792, 0.125}, {64, 0.0625}, {960, 0.0625}}
+	nicec := []float64{0.01, 0.1, 0.3, 0.5, 0.8, 0.9, 0.95, 0.99, 0.999, 0.999999}
+	for _, nq := range nice {
+		for _, cf := range nicec {
+			emit(c11Case{Op: 1, N: nq.n, Q: F64(nq.q), Cs: []F64{F64(cf)}})
+		}
+		for i := 0; i < 3; i++ {
+			emit(c11Case{Op: 1, N: nq.n, Q: F64(nq.q), Cs: []F64{F64(float64(1+rng.Intn(1023)) / 1024)}})
+		}
 	}
 	// (b5) n > 30, c <= 0 (repaired by "fix: QuantileCI returns an empty or inverted interval for
 	// confidence <= 0 when n > 30") and c just above 0; q such that mu and mu +- 0.5 are integers
